@@ -406,6 +406,112 @@ func (c *Ctx) RuleLimitFirst(fn *ssa.Function, inputIdx int, sentinel *ssa.Globa
 	c.checkTooLongEdge(fn, gi, input, sentinel)
 }
 
+// RuleLimitLate: the limit rule for an entry point added beside the recorded ones. It has the guard itself
+// (RuleLimitFirst), or it hands its text — whole or a part of it — to a guarded entry of the package: one of
+// `guarded` called directly, or the package-level parser variable called through its value. In front of that call
+// the text is only measured, indexed or sliced outside any loop: no call receives it, no loop reads it.
+func (c *Ctx) RuleLimitLate(fn *ssa.Function, inputIdx int, sentinel *ssa.Global, guarded map[*ssa.Function]bool, parserVar *ssa.Global) {
+	input := fn.Params[inputIdx]
+	if c.findGuard(fn, input) != nil {
+		c.RuleLimitFirst(fn, inputIdx, sentinel, 0)
+		return
+	}
+	carries := func(cc *ssa.CallCommon) bool {
+		for _, a := range cc.Args {
+			if rootParam(a) == input {
+				return true
+			}
+		}
+		return false
+	}
+	var deleg *ssa.Call
+	for _, b := range fn.Blocks {
+		for _, in := range b.Instrs {
+			call, ok := in.(*ssa.Call)
+			if !ok || !carries(&call.Call) {
+				continue
+			}
+			if f := c.StaticCallee(&call.Call); f != nil {
+				if guarded[origin(f)] && deleg == nil {
+					deleg = call
+				}
+				continue
+			}
+			if ld, ok := call.Call.Value.(*ssa.UnOp); ok && ld.Op == token.MUL && parserVar != nil && ld.X == ssa.Value(parserVar) && deleg == nil {
+				deleg = call
+			}
+		}
+	}
+	if deleg == nil {
+		// a callee of the module that has the guard (the shape RuleLimitFirst follows), else nothing enforces the limit
+		c.RuleLimitFirst(fn, inputIdx, sentinel, 0)
+		return
+	}
+	cyc := cyclicBlocks(fn)
+	bad := false
+	for _, b := range fn.Blocks {
+		for _, in := range b.Instrs {
+			if in == ssa.Instruction(deleg) {
+				continue
+			}
+			behind := deleg.Block().Dominates(b) && (b != deleg.Block() || precedes(deleg, in))
+			if behind {
+				continue
+			}
+			switch x := in.(type) {
+			case *ssa.Call:
+				if bi, isB := x.Call.Value.(*ssa.Builtin); isB && (bi.Name() == "len" || bi.Name() == "cap") {
+					continue
+				}
+				if carries(&x.Call) {
+					if f := c.StaticCallee(&x.Call); f != nil && f.Signature.Results().Len() == 1 && implementsError(f.Signature.Results().At(0).Type()) && inRepo(f) {
+						continue // the failure result built from the text
+					}
+					c.add("violated", "C18.L", fn, x.Pos(), "the input is handed to a call in front of the delegation to the guarded parser: work on a text of unchecked length")
+					bad = true
+				}
+			case *ssa.Index, *ssa.IndexAddr, *ssa.Slice, *ssa.Range, *ssa.Lookup:
+				if !cyc[b] {
+					continue
+				}
+				for _, op := range in.Operands(nil) {
+					if rootParam(*op) == input {
+						c.add("violated", "C18.L", fn, in.Pos(), "the input is read in a loop in front of the delegation to the guarded parser: work on a text of unchecked length")
+						bad = true
+					}
+				}
+			}
+		}
+	}
+	if !bad {
+		c.add("discharged", "C18.L", fn, deleg.Pos(), "hands its text to the package's guarded parser before any work on it")
+	}
+}
+
+// cyclicBlocks: the blocks of fn that lie on a CFG cycle.
+func cyclicBlocks(fn *ssa.Function) map[*ssa.BasicBlock]bool {
+	out := map[*ssa.BasicBlock]bool{}
+	for _, b := range fn.Blocks {
+		if reachFrom(b)[b] {
+			out[b] = true
+		}
+	}
+	return out
+}
+
+// precedes: a comes before b in their common block.
+func precedes(a, b ssa.Instruction) bool {
+	for _, x := range a.Block().Instrs {
+		if x == a {
+			return true
+		}
+		if x == b {
+			return false
+		}
+	}
+	return false
+}
+
 // delegatesGuard: callee passes the param straight to another in-repo function that has the guard.
 func (c *Ctx) delegatesGuard(fn *ssa.Function, pi int, depth int) bool {
 	if depth > 3 {
